@@ -244,4 +244,84 @@ def mutationOf (e : Edge) : String :=
 def mutations (outs : List Out) (o : Out) : List (Nat × String) :=
   o.edges.map (fun e => (((outs.getD e.father o).node.orig), mutationOf e))
 
+/-! ## the data set: several samples, the annotations written to the records, `--head` (obiclean.go)
+
+`buildSamples` puts record `i` of the data set in every sample of its `merged_sample` map, in data-set order;
+the samples are then processed one after the other (`for _, seqs := range samples`, a Go map: the order is
+arbitrary, but the samples share nothing except the per-record annotation maps, in which sample `name` only
+writes the key `name` of `obiclean_status` / `obiclean_weight` and the key "id of the father" of `obiclean_mutation`;
+`mutation_value_function_of_pair` in Props/C13.lean shows that two samples can only write the same value under
+the same key). `CLIOBIClean` : `buildSamples`, `BuildSeqGraph`, `FilterGraphOnRatio`, `Mutation`, the status / weight
+loop, `annotateOBIClean`, and `FilterOn(IsHead)` with `--head`. -/
+
+/-- one record: its sequence and its `merged_sample` map as a list `(sample name, count)` -/
+structure Rec where
+  seq : Seq
+  counts : List (Nat × Nat)
+  deriving Repr, DecidableEq
+
+def insertNat (a : Nat) : List Nat → List Nat
+  | [] => [a]
+  | x :: xs => if a ≤ x then a :: x :: xs else x :: insertNat a xs
+
+/-- the sample names of the data set, increasing -/
+def sampleNames (db : List Rec) : List Nat :=
+  ((db.flatMap (fun r => r.counts.map (·.1))).eraseDups).foldr insertNat []
+
+/-- `buildSamples` : sample `name` = the records having a count for it, in data-set order; `orig` = record index -/
+def sampleOf (db : List Rec) (name : Nat) : List Node :=
+  db.zipIdx.filterMap (fun (r : Rec × Nat) =>
+    (r.1.counts.find? (fun kv => kv.1 == name)).map (fun kv => ({ orig := r.2, count := kv.2, seq := r.1.seq } : Node)))
+
+/-- every sample through `f` (the graph construction of one sample); `none` = one of them hangs -/
+def runSamples (f : Nat → List Node → Outcome) (db : List Rec) : Option (List (Nat × List Out)) :=
+  (sampleNames db).mapM (fun name =>
+    match f name (sampleOf db name) with
+    | .ok outs => some (name, outs)
+    | .hang => none)
+
+/-- the `obiclean_*` annotations of one record -/
+structure Annot where
+  /-- `obiclean_status` : sample ↦ status, by increasing sample name -/
+  status : List (Nat × Status)
+  /-- `obiclean_weight` : sample ↦ weight -/
+  weight : List (Nat × Nat)
+  /-- `obiclean_mutation` : record index of the father (its id) ↦ mutation, one entry per (sample, remaining edge) -/
+  mutation : List (Nat × String)
+  /-- `obiclean_head` -/
+  head : Bool
+  headCount : Nat
+  internalCount : Nat
+  singletonCount : Nat
+  sampleCount : Nat
+  deriving Repr, DecidableEq
+
+/-- the nodes of record `i` : `(sample, all the nodes of that sample, its node)` -/
+def mineOf (res : List (Nat × List Out)) (i : Nat) : List (Nat × List Out × Out) :=
+  res.filterMap (fun (r : Nat × List Out) => (r.2.find? (fun o => o.node.orig == i)).map (fun o => (r.1, r.2, o)))
+
+/-- the status / weight loop of `CLIOBIClean`, `Mutation`, and `annot` of `annotateOBIClean` for record `i` -/
+def annotateRec (res : List (Nat × List Out)) (i : Nat) : Annot :=
+  let mine := mineOf res i
+  let sts := mine.map (fun m => status m.2.2.edges m.2.2.sons)
+  let h := sts.count .head
+  let it := sts.count .internal
+  let sg := sts.count .singleton
+  { status := mine.map (fun m => (m.1, status m.2.2.edges m.2.2.sons)),
+    weight := mine.map (fun m => (m.1, m.2.2.weight)),
+    mutation := mine.flatMap (fun m => mutations m.2.1 m.2.2),
+    head := decide (h + sg > 0),
+    headCount := h, internalCount := it, singletonCount := sg, sampleCount := h + it + sg }
+
+def annotateAll (db : List Rec) (res : List (Nat × List Out)) : List Annot :=
+  (List.range db.length).map (annotateRec res)
+
+/-- the sequential reference of `CLIOBIClean` up to `annotateOBIClean` : the annotations of every record -/
+def cleanDataset (K : Kernels) (cfg : Config) (db : List Rec) : Option (List Annot) :=
+  (runSamples (fun _ s => cleanSample K cfg s) db).map (annotateAll db)
+
+/-- `if OnlyHead() { iter = iter.FilterOn(IsHead, 1000) }` : the records written, `(record index, annotations)` -/
+def cliOutput (onlyHead : Bool) (as : List Annot) : List (Nat × Annot) :=
+  (as.zipIdx.map (fun (r : Annot × Nat) => (r.2, r.1))).filter (fun r => !onlyHead || r.2.head)
+
 end ObiVerif.Clean
